@@ -17,7 +17,7 @@ func init() { register("C10", c10) }
 func c10(r *core.Run) {
 	r.Expl = "C10 (condition text parsed robustly): decides (1) every operator spelling documented in the goQuery help tables (extracted from the constant help text) is matched — bare for symbol forms, enclosed by blanks for word forms — by a regular expression that tokenize.go lists under the same base operator and by no expression listed under a different base operator (the rewrite rules are applied in map-iteration order, so a spelling claimed by two operators has a random meaning); all listed expressions compile; (2) parser totality: every access to the token slice is guarded by the end-of-input test, parseConditional rejects parse errors and trailing tokens before returning a tree; (3) the prefix length taken from user text is bounded on both sides before it indexes (shared with C09). NOT decided: that sanitise → tokenise → join → parse preserves meaning or is idempotent; interaction between consecutive word operators sharing a blank (e.g. 'x and not y' is rejected today — observation F07, not the result of a check); behaviour on arbitrary (fuzzed) strings."
 	r.Floor = 40
-	r.Rules = append(r.Rules, "help-vs-grammar: constant regexps compiled and applied to the documented spellings at analysis time", "parser-totality", "parsed-int-bounds", "conversion-applied (P1)", "window-slice-bounded: x[a:a+K] needs a test relating a to len(x)")
+	r.Rules = append(r.Rules, "help-vs-grammar: constant regexps compiled and applied to the documented spellings at analysis time", "parser-totality", "parsed-int-bounds", "conversion-applied (P1)", "window-slice-bounded: x[a:a+K] needs a test relating a to len(x)", "conversion-order: no string fold over a map")
 	p := r.Prog("cgo")
 	c10HelpGrammar(r, p)
 	c10Sanitize(r, p)
@@ -25,6 +25,55 @@ func c10(r *core.Run) {
 	ruleNetmaskBounds(r, p)
 	ruleFamilyDecidedOnce(r, p)
 	c10Windows(r, p)
+	c10FoldOrder(r, p)
+}
+
+// c10FoldOrder: the canonical form of a condition is computed by rewriting the text once per entry of the conversion
+// table. The word spellings are matched together with the blanks around them, so neighbouring operators compete for the
+// blank between them and the rewrites do not commute. The text that comes out therefore depends on the order in which the
+// table is walked, and that order must be fixed by the program: a string accumulator that is rewritten inside a `range`
+// over a Go map (`s = f(s, key, value)`) takes the order of the run. Decided: SanitizeUserInput contains no such fold.
+func c10FoldOrder(r *core.Run, p *core.Prog) {
+	const rule = "conversion-order"
+	f := r.MustFunc(rule, "pkg/goDB/conditions", "SanitizeUserInput")
+	if f == nil {
+		return
+	}
+	info := f.Info()
+	bad := ""
+	core.Walk(f.Decl.Body, false, func(x ast.Node) bool {
+		rs, ok := x.(*ast.RangeStmt)
+		if !ok {
+			return true
+		}
+		t := info.TypeOf(resolveLocal(info, f.Decl.Body, ast.Unparen(rs.X)))
+		if t == nil {
+			return true
+		}
+		if _, isMap := t.Underlying().(*types.Map); !isMap {
+			return true
+		}
+		core.Walk(rs.Body, false, func(y ast.Node) bool {
+			a, ok := y.(*ast.AssignStmt)
+			if !ok || len(a.Lhs) != 1 || len(a.Rhs) != 1 {
+				return true
+			}
+			o, isVar := core.ObjOf(info, a.Lhs[0]).(*types.Var)
+			if !isVar || (o.Pos() >= rs.Pos() && o.Pos() < rs.End()) {
+				return true // declared inside the loop: not an accumulator
+			}
+			if b, isB := o.Type().Underlying().(*types.Basic); !isB || b.Info()&types.IsString == 0 {
+				return true
+			}
+			if core.MentionsObj(info, a.Rhs[0], o) {
+				bad = fmt.Sprintf("%s: %s is rewritten once per entry of the map %s, in the map's iteration order", p.Rel(a.Pos()), o.Name(), core.Str(rs.X))
+			}
+			return true
+		})
+		return true
+	})
+	r.Check(rule, "SanitizeUserInput:conversion-order-independent-of-map-iteration", p.Rel(f.Decl.Pos()), bad == "",
+		bad+": the word forms are matched with the blanks around them, so for `a and not b` the rewrite of \"and\" and the rewrite of \"not\" compete for the blank between them; which one wins differs from run to run, the canonical form is \"…and!b\" or \"…&not b\", and neither parses")
 }
 
 // c10Windows: no fixed-size window at a variable offset without a length test, in everything that handles the tokens of
